@@ -130,17 +130,20 @@ let parse_chunks (s : string) : chunk list =
       (String.split_on_char ';' s)
 
 type st = { mutable backend : backend; mutable s : Obj.t; mutable cfg : config; mutable is_sqlite : bool;
-            mutable trace : bool; mutable allow : id list option }
+            mutable trace : bool; mutable allow : id list option; mutable plan : (nat * fault) list }
 
 let () =
   let bk = if Array.length Sys.argv > 1 then Sys.argv.(1) else "inmem" in
-  let st = { backend = inMemB; s = Obj.repr im_empty; cfg = default_config; is_sqlite = false; trace = false; allow = None } in
+  let st = { backend = inMemB; s = Obj.repr im_empty; cfg = default_config; is_sqlite = false; trace = false; allow = None; plan = [] } in
   let reset which =
     if which = "sqlite" then (st.backend <- sqliteB; st.s <- Obj.repr sq_empty; st.is_sqlite <- true)
     else (st.backend <- inMemB; st.s <- Obj.repr im_empty; st.is_sqlite <- false) in
   reset bk;
+  let rec nat_of_int (i : int) : nat = if i <= 0 then O else S (nat_of_int (i - 1)) in
   let do_op (o : op) (e : env) =
-    let ((r, s'), tr) = step st.backend st.cfg st.s (o, e) in
+    let ((r, s'), tr) =
+      if st.plan = [] then step st.backend st.cfg st.s (o, e)
+      else (let ((r, s'), _) = fstep st.backend st.cfg (plan_of st.plan) st.s (o, e) in st.plan <- []; ((r, s'), [])) in
     st.s <- s';
     if st.trace && false then
       Printf.printf "%s | %s\n" (string_of_resp r) (String.concat "," (List.map string_of_label tr))
@@ -172,6 +175,12 @@ let () =
         | ["reopen"] -> do_op OReopen noenv
         | ["dump"; c; ids] -> do_op (ODump (n_of_string c, ids_of_string ids)) noenv
         | "mark" :: _ -> print_endline "mark"
+        | ["fault"; spec] ->
+          st.plan <- List.map (fun x ->
+              match String.split_on_char ':' x with
+              | [k; w] -> (nat_of_int (int_of_string k), (if w = "after" then FAfter else FBefore))
+              | _ -> (O, FNone)) (String.split_on_char ',' spec);
+          print_endline "faultset"
         | ["allow"; "none"] -> st.allow <- None; print_endline "allowed"
         | ["allow"; l] -> st.allow <- Some (ids_of_string l); print_endline "allowed"
         | ["http"; m; route; sg; cid; ct; chunks; fresh; now] ->
@@ -183,7 +192,10 @@ let () =
                                    | x -> COk (n_of_string x)) in
           let cty = (match ct with "history" -> CTHistory | "snapshot" -> CTSnapshot | "absent" -> CTAbsent | _ -> CTOther) in
           let rq = { rq_method = meth; rq_path = path; rq_cid = cidh; rq_ctype = cty; rq_chunks = parse_chunks chunks } in
-          let ((r, s'), tr) = http_step st.backend st.cfg st.allow st.s (rq, { e_fresh = n_of_string fresh; e_now = z_of_string now }) in
+          let env0 = { e_fresh = n_of_string fresh; e_now = z_of_string now } in
+          let ((r, s'), tr) =
+            if st.plan = [] then http_step st.backend st.cfg st.allow st.s (rq, env0)
+            else (let ((r, s'), _) = http_fstep st.backend st.cfg st.allow (plan_of st.plan) st.s (rq, env0) in st.plan <- []; ((r, s'), [])) in
           st.s <- s';
           Printf.printf "%s | %s\n" (string_of_hresp r) (String.concat "," (List.map string_of_label tr))
         | ["rows"] ->
